@@ -115,6 +115,8 @@ class Result:
         self.classes = {}
         self.skipped = {}
         self.mism = []
+        self.sig_counts = {}
+        self.nmism = 0
         self.samples = []
         self.jobs = []
         self.harness_errors = []
@@ -129,8 +131,13 @@ class Result:
             self.classes[k] = self.classes.get(k, 0) + v
         for k, v in out["skipped"].items():
             self.skipped[k] = self.skipped.get(k, 0) + v
-        if len(self.mism) < 2000:
-            self.mism.extend(out["mism"])
+        for m in out["mism"]:
+            sk = json.dumps([m.get("clause"), m.get("sig")], sort_keys=True, default=str)
+            c = self.sig_counts.get(sk, 0)
+            self.sig_counts[sk] = c + 1
+            if c < 6:
+                self.mism.append(m)
+        self.nmism += len(out["mism"])
         if len(self.samples) < 3:
             self.samples.extend(out["samples"][: 3 - len(self.samples)])
         self.harness_errors.extend(out.get("harness_errors", []))
@@ -190,18 +197,21 @@ def report(res, level="model_checking", rule="", assumptions=(), invariants_note
     violations = []
     seen_sig = set()
     for m in res.mism:
+        m["_count"] = res.sig_counts.get(json.dumps([m.get("clause"), m.get("sig")], sort_keys=True, default=str), 1)
         hit = None
         for e in findings:
             if sig_matches(e, m):
                 hit = e
                 break
-        if hit is not None:
-            known_hit.setdefault(hit["id"], [hit, 0])[1] += 1
-            continue
         sk = json.dumps([m.get("clause"), m.get("sig")], sort_keys=True, default=str)
-        if sk in seen_sig and len(violations) >= 10:
-            continue
+        first = sk not in seen_sig
         seen_sig.add(sk)
+        if hit is not None:
+            if first:
+                known_hit.setdefault(hit["id"], [hit, 0])[1] += m["_count"]
+            continue
+        if not first:
+            continue
         violations.append(m)
     for hid, (e, cnt) in sorted(known_hit.items()):
         print("KNOWN-FINDING: property=%s %s [%s, %d occurrences this run]" % (e["property"], e["what"], hid, cnt))
@@ -215,7 +225,7 @@ def report(res, level="model_checking", rule="", assumptions=(), invariants_note
                        "expected": m.get("expected"), "observed": m.get("observed"), "detail": m.get("detail"),
                        "signature": m.get("sig")}, f, indent=1, default=str)
         print("VIOLATION property=%s replay=%s" % (res.prop, path))
-        print("  clause=%s detail=%s sig=%s" % (m.get("clause"), m.get("detail"), json.dumps(m.get("sig"), default=str)))
+        print("  clause=%s cases=%d detail=%s sig=%s" % (m.get("clause"), m.get("_count", 1), m.get("detail"), json.dumps(m.get("sig"), default=str)))
         nviol += 1
     if len(violations) > 25:
         print("  ... %d further violating cases not written out" % (len(violations) - 25))
@@ -233,12 +243,12 @@ def report(res, level="model_checking", rule="", assumptions=(), invariants_note
         cov["exhaustive"] = res.exhaustive
     cov.update({k: v for k, v in res.extra.items()})
     ev = {"property_id": res.prop, "tier": res.tier, "seed": res.seed, "level": level, "coverage": cov,
-          "assumptions": list(assumptions), "wall_s": round(wall, 1), "violations": len(violations)}
+          "assumptions": list(assumptions), "wall_s": round(wall, 1), "violations": sum(m.get("_count", 1) for m in violations)}
     os.makedirs(os.path.join(VERIF, "evidence"), exist_ok=True)
     with open(os.path.join(VERIF, "evidence", "%s.json" % res.prop), "w") as f:
         json.dump(ev, f, indent=1, default=str)
     print("%s tier=%s seed=%d: %d TLC states, %d cases replayed (%d library calls), %d mismatching, %d known, %d violations, %.1fs"
-          % (res.prop, res.tier, res.seed, res.distinct, res.cases, res.calls, len(res.mism),
+          % (res.prop, res.tier, res.seed, res.distinct, res.cases, res.calls, res.nmism,
              sum(v[1] for v in known_hit.values()), len(violations), wall))
     if res.harness_errors:
         print("MACHINERY: %d harness errors, first:\n%s" % (len(res.harness_errors), res.harness_errors[0]))
